@@ -24,6 +24,8 @@ import Nitime.Lemmas.C09Out
 import Nitime.Generated.CacheOut
 import Nitime.Lemmas.CohSession
 import Nitime.Generated.SetInput
+import Nitime.Lemmas.C09Keys
+import Nitime.Generated.CacheKeys
 
 open Finset ComplexConjugate
 open Nitime.Coh Nitime.C08.Props Nitime.C09 Nitime.Generated
@@ -412,5 +414,62 @@ theorem swap_check_rollback_counterexample :
   decide +kernel
 
 end RefusedSetInput
+
+/-! ### Channel bookkeeping of the cache: every value lies under the key of ITS channel (class "labels attached to the wrong values") -/
+section ChannelKeys
+open Nitime.C09.Keys Nitime.Generated
+
+/-- the tie: in the CURRENT source `cache_fft` (both dicts), `cache_to_psd` and `cache_to_phase` each take the keys of their dict
+and the channel whose value they compute from ONE ordering (one loop variable / one iterable), and the translator recognised
+every one of them.  An edit that keys by another ordering than it fills (`dict(zip(sorted(chans), [… for c in chans]))`)
+changes `Generated.CacheKeys` and this stops checking. -/
+theorem cache_functions_key_and_fill_from_one_ordering :
+    ∀ s ∈ CacheKeys.table, s.2.keyOrd = s.2.valOrd ∧ s.2.keyOrd ≠ .unknown := by
+  decide
+
+/-- **`cache_to_psd(cache_fft(x, ij), ij)[c]` is the spectrum of channel `c`** — for EVERY pair list (sparse, unsorted, reversed,
+repeated, with gaps, largest index first), every number of channels, and WHATEVER order the two channel sets iterate in
+(`iterF`, `iterQ`: any lists naming exactly the requested channels): the windows `slices (row c)` of row `c` are stored under
+key `c`, and the value under key `c` of the returned dict is `post` of exactly those (`post` = mean of |·|²/norm with the edge
+bins halved, `cachePsd`; `cache_psd_eq_dense` then equates it with the dense PSD of channel `c`). -/
+theorem cache_psd_keyed_by_channel {R S P} (ij : List (ℕ × ℕ)) (iterF iterQ : List ℕ)
+    (hF : ∀ c, c ∈ iterF ↔ c ∈ channels ij) (hQ : ∀ c, c ∈ iterQ ↔ c ∈ channels ij)
+    (rows : ℕ → R) (slices : R → S) (post : S → P) (dflt : S) (c : ℕ) (hc : c ∈ channels ij) :
+    (cacheThenQuery CacheKeys.fft CacheKeys.psd iterF iterQ ij rows slices post dflt).lookup c
+      = some (post (slices (rows c))) :=
+  cacheThenQuery_lookup _ _ (by decide) (by decide) iterF iterQ ij hF hQ rows slices post dflt c hc
+
+/-- the same for `cache_to_phase` -/
+theorem cache_phase_keyed_by_channel {R S P} (ij : List (ℕ × ℕ)) (iterF iterQ : List ℕ)
+    (hF : ∀ c, c ∈ iterF ↔ c ∈ channels ij) (hQ : ∀ c, c ∈ iterQ ↔ c ∈ channels ij)
+    (rows : ℕ → R) (slices : R → S) (post : S → P) (dflt : S) (c : ℕ) (hc : c ∈ channels ij) :
+    (cacheThenQuery CacheKeys.fft CacheKeys.phase iterF iterQ ij rows slices post dflt).lookup c
+      = some (post (slices (rows c))) :=
+  cacheThenQuery_lookup _ _ (by decide) (by decide) iterF iterQ ij hF hQ rows slices post dflt c hc
+
+/-- the conjugate windows kept with `prefer_speed_over_memory` sit under the same keys as the windows themselves -/
+theorem cache_conj_slices_keyed_by_channel {V} (ij : List (ℕ × ℕ)) (iter : List ℕ) (hI : ∀ c, c ∈ iter ↔ c ∈ channels ij)
+    (f : ℕ → V) (c : ℕ) (hc : c ∈ channels ij) :
+    (keyed CacheKeys.fftConj iter ij f).lookup c = some (f c) ∧ (keyed CacheKeys.fft iter ij f).lookup c = some (f c) :=
+  ⟨keyed_lookup _ (by decide) iter ij hI f c hc, keyed_lookup _ (by decide) iter ij hI f c hc⟩
+
+/-- … and nothing lies under a key that was not requested -/
+theorem cache_psd_has_no_other_keys {V} (ij : List (ℕ × ℕ)) (iter : List ℕ) (hI : ∀ c, c ∈ iter ↔ c ∈ channels ij)
+    (f : ℕ → V) (c : ℕ) (hc : c ∉ channels ij) : (keyed CacheKeys.psd iter ij f).lookup c = none :=
+  keyed_lookup_none _ (by decide) iter ij hI f c hc
+
+/-- non-vacuity: `ij = [(9, 3), (9, 9)]`, the set iterating as 9, 3 -/
+example : (cacheThenQuery CacheKeys.fft CacheKeys.psd [9, 3] [3, 9] [(9, 3), (9, 9)] (fun c => c) id id 0).lookup 9 = some 9 := by
+  decide
+
+/-- the set-order discipline of seeded change C09-13 (keys `sorted(set)`, values in the set's iteration order), `ij = [(1, 8)]` -/
+theorem set_order_discipline_counterexample :
+    (keyed ⟨.sorted, .setIter⟩ [8, 1] [(1, 8)] (fun c => c)).lookup 1 = some 8 ∧
+    (keyed ⟨.sorted, .setIter⟩ [8, 1] [(1, 8)] (fun c => c)).lookup 8 = some 1 ∧
+    -- while on a channel set that iterates in increasing order the same code is right (why ≤ 8 channels never show it)
+    (keyed ⟨.sorted, .setIter⟩ [1, 5] [(5, 1)] (fun c => c)).lookup 5 = some 5 :=
+  ⟨(sorted_keys_set_order_values_counterexample _).1, (sorted_keys_set_order_values_counterexample _).2, by decide⟩
+
+end ChannelKeys
 
 end Nitime.C09.Props
